@@ -33,6 +33,8 @@ def gen(rng, tier):
     n = 500 if tier == "quick" else 15000
     for t in range(n):
         ns, nv = rng.randint(2, 12), rng.choice([1, 2, 3, 4, 5, 5, 7, 9])
+        if rng.random() < 0.06:
+            ns, nv = rng.randint(17, 40), rng.choice([3, 9, 17, 24])  # medium sizes
         many_const = rng.random() < 0.08  # six or more requested variables that are constant in the cohort
         if many_const:
             nv = rng.choice([7, 9])
